@@ -121,8 +121,9 @@ def run(m: Model, r: Report, tier: str) -> None:
         if isinstance(n, ast.AugAssign) and isinstance(n.op, ast.Add) and isinstance(n.target, ast.Name):
             tests_ = [c for c in g.nodes.values() if c.kind == "cond" and isinstance(c.ast, ast.Compare) and len(c.ast.ops) == 1 and c.ast is not None
                       and WHILE in ancestors(c.ast, par) and isinstance(c.ast.ops[0], (ast.GtE, ast.Gt)) and ast.unparse(c.ast.left) == n.target.id
-                      and isinstance(c.ast.comparators[0], ast.Name)]
-            lim_names = {c.ast.comparators[0].id for c in tests_}
+                      and (isinstance(c.ast.comparators[0], ast.Name) or isinstance(m.try_fold(fn.module, c.ast.comparators[0]), (int, float)))]
+            # the limit is a local (assigned outside the pending loop) or a constant
+            lim_names = {c.ast.comparators[0].id if isinstance(c.ast.comparators[0], ast.Name) else f"={m.try_fold(fn.module, c.ast.comparators[0])!r}" for c in tests_}
             covered = bool(tests_) and len(lim_names) == 1 and bool(poll_nodes) and all(
                 g.must_pass(nd.id, {c.id for c in tests_}, poll_nodes)[0] for nd in g.nodes_of(n))
             if covered:
@@ -140,9 +141,9 @@ def run(m: Model, r: Report, tier: str) -> None:
                 f"{cname} must be initialised once per attempt inside the retry loop (found at loop nesting "
                 f"{[[type(l).__name__ for l in loops_of(i)] for i in inits]}): a counter carried over from an earlier attempt "
                 "ends the next attempt early and drops a reply that arrives in time", loc=fn.loc)
-        lim = assigns(limit)
-        r.check(len(lim) == 1 and WHILE not in ancestors(lim[0], par) and loops_of(lim[0]) in ([FOR], []), "R2",
-                f"{fn.qualname}#limit-invariant:{limit}", f"{limit} must be assigned exactly once, outside the pending loop", loc=fn.loc)
+        lim = assigns(limit) if not limit.startswith("=") else []
+        r.check(limit.startswith("=") or (len(lim) == 1 and WHILE not in ancestors(lim[0], par) and loops_of(lim[0]) in ([FOR], [])), "R2",
+                f"{fn.qualname}#limit-invariant:{cname}", f"the limit of {cname} ({limit}) must be a constant or assigned exactly once, outside the pending loop", loc=fn.loc)
         incs = [a for a in assigns(cname) if isinstance(a, ast.AugAssign) and WHILE in ancestors(a, par)]
         for inc in incs:
             okc = True
@@ -280,11 +281,8 @@ def run(m: Model, r: Report, tier: str) -> None:
             if any("busyRepeatRequest" in t for t in tests):
                 ok4, why = True, "busyRepeatRequest"
         r.check(ok4, "R4", f"{fn.qualname}#continue@{why or c.lineno}", "a retry is started on an event that is not retry-worthy", loc=f"{fn.module.relpath}:{c.lineno}")
-    busy = [n for n in walk_no_nested(fn.node) if isinstance(n, ast.If) and "busyRepeatRequest" in ast.unparse(n.test)]
-    okb = len(busy) == 1 and len(busy[0].body) >= 2 and isinstance(busy[0].body[0], ast.If) and \
-        ast.unparse(busy[0].body[0].test).replace(" ", "") == f"{IV}>={MR}" and \
-        isinstance(busy[0].body[0].body[0], ast.Return) and ast.unparse(busy[0].body[0].body[0].value) == RESP
-    r.check(okb, "R4", f"{fn.qualname}#busy-last-attempt", "busyRepeatRequest on the last attempt must be returned to the caller", loc=fn.loc)
+    from sa.uds_rules import busy_last_attempt as _bla
+    _bla(m, r, "R4", with_retry=True)
 
     # pending-loop condition and exits
     wt = WHILE.test
@@ -327,17 +325,6 @@ def run(m: Model, r: Report, tier: str) -> None:
     ok_lim, p_lim = g.must_pass(polls_parse[0].id, whead, lim_raises)
     r.check(ok_lim, "R5", f"{fn.qualname}#final-reply-at-limit", "the limit of received pendings is applied to a reply before it was checked for being final: "
             + " -> ".join(repr(g.nodes[p]) for p in p_lim[-3:]) + " (119 pendings followed by the final reply end in RuntimeError instead of that reply)", loc=fn.loc)
-    # busy branch atoms
-    if len(busy) == 1:
-        bt = busy[0].test
-        outer = next((a for a in ancestors(busy[0], par) if isinstance(a, ast.If)), None)
-        okbz = isinstance(bt, ast.Compare) and isinstance(bt.ops[0], ast.Eq) and outer is not None and \
-            ast.unparse(outer.test) == f"isinstance({RESP}, service.NegativeResponse)"
-        if isinstance(bt, ast.BoolOp):
-            okbz = isinstance(bt.op, ast.And) and any(isinstance(v, ast.Compare) and isinstance(v.ops[0], ast.Eq) and "busyRepeatRequest" in ast.unparse(v) for v in bt.values)
-        r.check(okbz, "R4", f"{fn.qualname}#busy-condition", f"busy branch condition `{ast.unparse(bt)}` must be an equality test on a negative response", loc=fn.loc)
-        okcont = isinstance(busy[0].body[-1], ast.Continue)
-        r.check(okcont, "R4", f"{fn.qualname}#busy-retries", "busyRepeatRequest before the last attempt must start the next attempt", loc=fn.loc)
 
     # ---------------------------------------------------------------- R5
     r.check(len(rnames) == 1 and None not in rnames, "R5", f"{fn.qualname}#returns",
